@@ -219,6 +219,9 @@ func groupByDate(hashProvider func(klog.Date) period.Hash, rs []klog.Record) (ma
 	return days, order
 }
 
+// maxBarLength is the maximum number of blocks of a chart bar.
+const maxBarLength = 10000
+
 func renderBar(minutesPerUnit int, d klog.Duration) string {
 	block := "▇"
 	blocksCount := func() int {
@@ -226,7 +229,12 @@ func renderBar(minutesPerUnit int, d klog.Duration) string {
 		if mins <= 0 {
 			return 0
 		}
-		return int(math.Ceil(float64(mins) / float64(minutesPerUnit)))
+		count := math.Ceil(float64(mins) / float64(minutesPerUnit))
+		if count > maxBarLength {
+			// Cap the bar, so that an absurdly large value cannot exhaust the memory.
+			return maxBarLength
+		}
+		return int(count)
 	}()
 	return strings.Repeat(block, blocksCount)
 }
